@@ -141,6 +141,7 @@ pub fn facts(files: &[(String, File)]) -> (String, String) {
   let mut drop_types: BTreeSet<String> = BTreeSet::new();
   let mut exported_mods: Vec<String> = vec![];
   let mut provided_overrides: Vec<String> = vec![];
+  let mut iterator_overrides: Vec<String> = vec![];
   for (_, f) in files {
     for it in &f.items {
       if let Item::Impl(im) = it {
@@ -221,6 +222,30 @@ pub fn facts(files: &[(String, File)]) -> (String, String) {
                 .collect::<Vec<_>>()
                 .join("+");
               unsafe_impls.push((t.clone(), self_ty.clone(), bound));
+            }
+          }
+          // provided methods of the iterator traits (and of Clone) that an impl for one of the crate's types overrides:
+          // the model defines nth / nth_back / count / last / fold / clone_from from next / next_back / clone the way
+          // `core` does, which describes the code only as long as the code does not define them itself
+          if let Some(t) = &tr {
+            let ty0 = self_ty.split('<').next().unwrap_or("").trim().to_string();
+            let ours = ["MiniVec", "IntoIter", "Drain", "Splice", "DrainFilter"].contains(&ty0.as_str());
+            let allowed: &[&str] = match t.as_str() {
+              "Iterator" => &["next", "size_hint"],
+              "DoubleEndedIterator" => &["next_back"],
+              "ExactSizeIterator" => &["len"],
+              "FusedIterator" => &[],
+              "Clone" => &["clone"],
+              _ => &["*"],
+            };
+            if ours && allowed != ["*"] {
+              for ii in &im.items {
+                if let ImplItem::Fn(m) = ii {
+                  if !allowed.contains(&m.sig.ident.to_string().as_str()) {
+                    iterator_overrides.push(format!("{} for {}::{}", t, ty0, m.sig.ident));
+                  }
+                }
+              }
             }
           }
           for ii in &im.items {
@@ -387,6 +412,7 @@ pub fn facts(files: &[(String, File)]) -> (String, String) {
     l.push_str(&format!("def deleg_{} : Deleg := .{}\n", k, deleg.get(k).copied().unwrap_or("absent")));
   }
   l.push_str(&format!("\n/-- provided methods of PartialEq / PartialOrd / Ord / Hash / Debug that an impl for `MiniVec` overrides -/\ndef providedOverrides : Nat := {}\n", provided_overrides.len()));
+  l.push_str(&format!("\n/-- provided methods of Iterator / DoubleEndedIterator / ExactSizeIterator / Clone (other than `len`) that an impl for\n    MiniVec or one of its iterators overrides -/\ndef iteratorOverrides : Nat := {}\n", iterator_overrides.len()));
   l.push_str("\n/-- a call of the global allocator API and the function it occurs in -/\ninductive AllocSite | growAlloc | growRealloc | dropDealloc | otherSite\n  deriving DecidableEq, Repr\n\n");
   let sites: Vec<&str> = alloc_sites
     .iter()
@@ -405,6 +431,8 @@ pub fn facts(files: &[(String, File)]) -> (String, String) {
   j.push_str(&sigs.iter().map(|s| format!("{{\"name\": \"{}\", \"recv\": \"{}\", \"borrow\": \"{}\", \"elem_outlives\": {}}}", s.name, s.recv, s.borrow, s.outlives_bound)).collect::<Vec<_>>().join(", "));
   j.push_str("],\n \"exported_modules\": [");
   j.push_str(&exported_mods.iter().map(|m| format!("\"{}\"", m)).collect::<Vec<_>>().join(", "));
+  j.push_str("],\n \"iterator_overrides\": [");
+  j.push_str(&iterator_overrides.iter().map(|m| format!("\"{}\"", m)).collect::<Vec<_>>().join(", "));
   j.push_str("],\n \"provided_overrides\": [");
   j.push_str(&provided_overrides.iter().map(|m| format!("\"{}\"", m)).collect::<Vec<_>>().join(", "));
   j.push_str("],\n \"alloc_sites\": [");
